@@ -102,7 +102,7 @@ func (g *c28Gen) quoted(s string) string {
 
 var c28StringValues = []string{
 	"b", "", "avg", "count", "sum", "min", "max", "countsec", "p99", "1", "1,2", "x.*", "y|z", "a b", " ", "a\"b", "a\\b", "a'b", "a`b",
-	"line\nbreak", "tab\t", "\x00", "\x7f", "\xff", "\xc3", "é", "日本", "​", "﻿", "\U0001F600", "�", "{}", "[", "(", "a(", "[a-", "(?i)x",
+	"line\nbreak", "tab\t", "\x00", "\x7f", "\xff", "\xc3", "é", "日本", "\u200b", "\ufeff", "\U0001F600", "\ufffd", "{}", "[", "(", "a(", "[a-", "(?i)x",
 	" offset 300", "[3600:1]", "offset [1h]", "k:v", "$v", "__name__", "}", "#", "\\", "\\d+", "^a$", "a{2,3}", "\r", "'", "''", "\"\"",
 }
 
@@ -455,7 +455,7 @@ var c28Tokens = []string{
 	"quantile", "sort", "sort_desc", "drop_empty_series", "dbag", "offset", "by", "without", "on", "ignoring", "group_left", "group_right", "bool",
 	"start", "end", "start()", "end()", "inf", "nan", "m", "rate", "sum_over_time", "abs", "time", "a", "k", "5m", "1h", "1s", "100ms", "0s", "1y",
 	"1", "0", "2.5", "1e3", "0x", "0x1f", ".", "..", "e", "\"", "'", "`", "\\", "\"a\"", "'b'", "`c`", "\"\\", "#", "#\n", "\n", "\t", " ", "  ",
-	"\x00", "\xff", "\xc3\x28", "é", "日本", "​", "﻿", ";", "_", "x", "<-", "|", "&", "?", "[5m]", "[5m:]", "[5m:1m]", "offset [", "{a=\"b\"}", "__name__",
+	"\x00", "\xff", "\xc3\x28", "é", "日本", "\u200b", "\ufeff", ";", "_", "x", "<-", "|", "&", "?", "[5m]", "[5m:]", "[5m:1m]", "offset [", "{a=\"b\"}", "__name__",
 }
 
 func (g *c28Gen) tokenSoup() string {
